@@ -405,6 +405,8 @@ pub fn unhex(s: &str) -> Vec<u8> {
 pub fn decode_grid(fmt: &str, payload: &str) -> Result<std::sync::Arc<dyn Grid>, Error> {
     if fmt == "gravsoft" {
         Ok(std::sync::Arc::new(BaseGrid::gravsoft(unescape(payload).as_bytes())?))
+    } else if fmt == "gravsoftb" {
+        Ok(std::sync::Arc::new(BaseGrid::gravsoft(&unhex(payload))?))
     } else {
         Ok(std::sync::Arc::new(Ntv2Grid::new(&unhex(payload))?))
     }
